@@ -300,6 +300,10 @@ def veq(a, b):
         return a.e == b.e
     if isinstance(a, VInt) and isinstance(b, VInt):
         return a.e == b.e
+    if isinstance(a, VChar) and isinstance(b, VInt):
+        return z3.ZeroExt(56, a.e) == b.e  # u8 compared with an untyped literal
+    if isinstance(a, VInt) and isinstance(b, VChar):
+        return a.e == z3.ZeroExt(56, b.e)
     if isinstance(a, VBool) and isinstance(b, VBool):
         return a.e == b.e
     if isinstance(a, VUnit) and isinstance(b, VUnit):
@@ -735,6 +739,10 @@ class Interp:
                 return VBool(z3.Not(v.e)), env, pc
         if op == "*":
             return v, env, pc
+        if op == "-" and isinstance(v, VInt):
+            # signed negation of a 64-bit value (two's complement); i64::MIN cannot be negated
+            self.panic(z3.And(pc, v.e == bv(1 << 63)), "attempt to negate with overflow at line %s" % e.get("line"))
+            return VInt(bv(0) - v.e), env, pc
         raise Unsupported("unary " + op)
 
     def e_binary(self, e, env, pc):
@@ -804,6 +812,21 @@ class Interp:
         if isinstance(l, VChar) and isinstance(r, VChar) and op in ("<", "<=", ">", ">="):
             a, b = l.e, r.e
             return VBool({"<": ult(a, b), "<=": ule(a, b), ">": ugt(a, b), ">=": uge(a, b)}[op]), env, pc
+        # u8 arithmetic/bit operations with an untyped integer literal on one side (`togs[0] & 0x03 == 0x03`)
+        if op in ("&", "|", "^") and ((isinstance(l, VChar) and isinstance(r, (VInt, VChar))) or (isinstance(r, VChar) and isinstance(l, VInt))):
+            def as8(x):
+                if isinstance(x, VChar):
+                    return x.e
+                c = cval(x.e)
+                if c is None or c > 255:
+                    raise Unsupported("u8 operation with a non-literal wide operand")
+                return b8(c)
+            a, b = as8(l), as8(r)
+            return VChar({"&": a & b, "|": a | b, "^": a ^ b}[op]), env, pc
+        if op in ("==", "!=") and ((isinstance(l, VChar) and isinstance(r, VInt)) or (isinstance(l, VInt) and isinstance(r, VChar))):
+            ch, iv = (l, r) if isinstance(l, VChar) else (r, l)
+            eq = z3.ZeroExt(56, ch.e) == iv.e
+            return VBool(eq if op == "==" else z3.Not(eq)), env, pc
         raise Unsupported("binary %s on %s/%s" % (op, type(l).__name__, type(r).__name__))
 
     def e_tuple(self, e, env, pc):
@@ -1529,6 +1552,9 @@ class Interp:
         for x in e["elems"]:
             v, env, pc = self.eval(x, env, pc)
             items.append(v)
+        if items and all(isinstance(x, VChar) for x in items):
+            # `[0u8]`, `[b'a', b'b']`: a byte array is a byte string
+            return VStr(BStr([x.e for x in items], bv(len(items)))), env, pc
         return VVec(items), env, pc
 
     def e_repeat(self, e, env, pc):
